@@ -664,6 +664,8 @@ def main(tier):
         finish(c)
     runner = Runner(c, binary)
     hs = gen_histories(c)
+    import part_llptr
+    part_llptr.run(c, hs)          # pointer-level LinkedList model (props/C04_llptr.v) against the real ring of nodes
     results = []
     B = 4000
     for s in range(0, len(hs), B):
